@@ -37,8 +37,8 @@ const rtName = "verifrt_"
 
 type substRule struct {
 	Pkg  string // package being rewritten (import path suffix under the module), "" = any
-	From string // "<import path>.<Name>"
-	To   string // expression using verifrt_ as package name
+	From string // "<import path>.<Name>", or "(<recv type>).<Method>" for a method call
+	To   string // expression using verifrt_ as package name; for methods a function taking the receiver first
 }
 
 type config struct {
@@ -340,6 +340,9 @@ func (rw *rewriter) rewrite() (bool, error) {
 				rw.rewriteGo(c, n)
 			}
 		case *ast.CallExpr:
+			if rw.rewriteMethodCall(c, n, rules) {
+				return true
+			}
 			if rw.sync {
 				rw.rewriteSyncCall(c, n)
 			}
@@ -372,6 +375,47 @@ func (rw *rewriter) rewrite() (bool, error) {
 		astutil.AddNamedImport(rw.fset, rw.file, rtName, rtPath)
 	}
 	return true, nil
+}
+
+// rewriteMethodCall applies "(recv).Method" substitution rules: x.M(args) -> To(x, args).
+func (rw *rewriter) rewriteMethodCall(c *astutil.Cursor, n *ast.CallExpr, rules map[string]string) bool {
+	sel, ok := n.Fun.(*ast.SelectorExpr)
+	if !ok {
+		return false
+	}
+	s, ok := rw.pkg.TypesInfo.Selections[sel]
+	if !ok || s.Kind() != types.MethodVal {
+		return false
+	}
+	fn, ok := s.Obj().(*types.Func)
+	if !ok {
+		return false
+	}
+	recv := fn.Type().(*types.Signature).Recv()
+	if recv == nil {
+		return false
+	}
+	key := "(" + recv.Type().String() + ")." + fn.Name()
+	to, ok := rules[key]
+	if !ok {
+		return false
+	}
+	expr, err := parser.ParseExpr(to)
+	if err != nil {
+		rw.err = fmt.Errorf("bad substitution %q: %v", to, err)
+		return false
+	}
+	rw.needRT = true
+	var recvExpr ast.Expr = sel.X
+	if _, isPtr := recv.Type().(*types.Pointer); isPtr {
+		if _, xPtr := rw.pkg.TypesInfo.Types[sel.X].Type.Underlying().(*types.Pointer); !xPtr {
+			recvExpr = &ast.UnaryExpr{Op: token.AND, X: sel.X}
+		}
+	}
+	c.Replace(&ast.CallExpr{Fun: expr, Args: append([]ast.Expr{recvExpr}, n.Args...), Ellipsis: n.Ellipsis})
+	rw.st.Substs++
+	rw.changed = true
+	return true
 }
 
 func coreType(tp *types.TypeParam) types.Type {
